@@ -57,7 +57,7 @@ UNPROVED = [
     "that EVERY implicit conversion of cgenerator.lua goes through add_converted_val: a scrape (add_typed_val has the single caller add_converted_val) and the driver's 15 site streams, no theorem; sites SDeclStatic and SRecArrInit are in the scraped table but not exercised by the driver",
     "exit status and diagnostic text: observed through the forking driver (signal 6 + message), message texts tied through the translator's table",
     "containers of size >= 2^64 - 1, Strict/Wrapv C modes: theorems only (gcc default build tested; clang in thorough)",
-    "`///` and `%%%`: the emitted form is an inline expression, tied to Model.tdiv_fn/tmod_fn by correspondence only (no helper to scrape)",
+    "`///` and `%%%`: the emitted form is an inline expression, tied to Model.tdiv_fn/tmod_fn (same type) and Model.tdivm_fn/tmodm_fn (operands of different signedness, 8 type pairs, result type from types.lua) by correspondence only (no helper to scrape); C04_tdiv_check_refuted speaks about the same-type form",
 ]
 MANIFEST_ENTRY = {
     "text": "proof, partial: theorems (all integer types, all values) for array bounds, null dereference, integer->integer implicit narrowing at every add_converted_val call scraped from cgenerator.lua, checked // and %, explicit casts, span/vector/sequence/string accessors, with the emitted helpers tied term-for-term to the C generated on each run; `///` `%%%` by zero / min by -1 are REFUTED (open findings); float->integer narrowing, string.byte, 'before any invalid memory access' (ASan build), exit status/diagnostic and the completeness of the site list rest on differential testing only",
@@ -79,6 +79,8 @@ SITES = ["arg", "decl", "assign", "ret1", "ret2", "retdefer", "arrinit", "recini
          "massign2", "massign3", "mswap", "munpack", "mdeclunpack", "mfield"]
 VISITORS = {"visitors.InitList": 1, "visitor_Call": 2, "visitors.Call": 3, "visitors.Return": 4,
             "visitors.ForNum": 5, "visitors.VarDecl": 6, "visitors.Assign": 7, "visitors.BinaryOp": 8}
+TDIV_RESULT = {}      # (ltype, rtype) -> result type of `///` on operands of different signedness, as the compiler's types.lua says
+MIXED_PAIRS = [("int8", "uint8"), ("uint8", "int8"), ("int16", "uint16"), ("int32", "uint32"), ("uint32", "int32"), ("int64", "uint64"), ("uint64", "int64"), ("int8", "uint64")]
 TDIV_WITNESSES = {("tdiv", "int32", 7, 0), ("tmod", "int32", 7, 0), ("tdiv", "int64", -(1 << 63), -1), ("tmod", "int64", -(1 << 63), -1)}
 
 MSG = {1: "array index: position out of bounds", 3: "attempt to dereference a null pointer", 4: "division by zero"}
@@ -159,6 +161,8 @@ def load_types(ctx):
             types[w[1]] = (int(w[3]), w[4] == "1", int(w[5]), int(w[6]), w[2])
         elif w[0] == "R":
             inr[(w[1], w[2])] = w[3] == "1"
+        elif w[0] == "O":
+            TDIV_RESULT[(w[1], w[2])] = w[3]
     if len(types) < len(ITYPES):
         raise RuntimeError("types.lua printed too few types")
     for n, (b, s, lo, hi, _) in types.items():
@@ -552,6 +556,29 @@ def gen_cases(ctx):
                         key = None          # exact key "case:<input>"
                     cases.append(Case("tdiv", "%s %s %d %d" % (op, t, a, b), "%s %s %s %s" % (op, tb(t), hx(a), hx(b)), orc, key=key,
                                       nontrivial=a not in (0, 1)))
+    # 5c. `///` `%%%` on operands of different signedness (branch of 03b0ae0 / 8eb30df: `(T)((T)a / (T)b)`, T the result type
+    # taken from the compiler's own type rules): same plain C operator, same missing diagnostic; keys name both operand types
+    for (lt_, rt_) in MIXED_PAIRS:
+        T = TDIV_RESULT.get((lt_, rt_))
+        if T not in TYPES:
+            raise RuntimeError("types.lua gave no result type for %s /// %s" % (lt_, rt_))
+        tlo, thi = rng_of(T)
+        for a in sorted(lattice(lt_) | {x for x in (7, -7, 1 << 63) if inrange(lt_, x)}):
+            for b in sorted(lattice(rt_) | {x for x in (0, 3, -3) if inrange(rt_, x)}):
+                for op in ("tdiv", "tmod"):
+                    key = None
+                    ca, cb = wrap(T, a), wrap(T, b)
+                    if cb == 0:
+                        orc = "P 4"
+                        key = "cbuiltins.operators.%s:plain-C-operator:%s-%s:division-by-zero-without-diagnostic" % (op, lt_, rt_)
+                    else:
+                        q = abs(ca) // abs(cb)
+                        q = q if (ca < 0) == (cb < 0) else -q
+                        orc = "V %d" % (wrap(T, q) if op == "tdiv" else ca - q * cb)
+                        if ca == tlo and cb == -1 and TYPES[T][0] >= 32:
+                            key = "cbuiltins.operators.%s:plain-C-operator:%s-%s:min-by-minus-one-undefined" % (op, lt_, rt_)
+                    cases.append(Case("tdiv-mixed", "%sm %s %s %d %d" % (op, lt_, rt_, a, b),
+                                      "%sm %s %s %s %s %s" % (op, tb(lt_), tb(rt_), tb(T), hx(a), hx(b)), orc, key=key, nontrivial=a not in (0, 1)))
     # 6. pointer dereference
     cases.append(Case("deref", "deref 0", "deref 0", "P 3", cmpval=False, nontrivial=False))
     cases.append(Case("deref", "deref 1", "deref 1", "V 4242", cmpval=False, nontrivial=False))
